@@ -76,13 +76,15 @@ PROPS = {
                       dict(harness="sysenv", build="plain", runs=120000, offset=40000, wall_cap=1200),
                       dict(harness="sysenv", build="plain", runs=60, offset=160000, valgrind=True, workers=8, wall_cap=1200)],
         ),
-        rule=("a case is one simulated history of executable_path()/prefix_path() calls, each against a freshly generated "
+        rule=("a case is one simulated history of executable_path()/prefix_path() calls against a generated "
               "/proc/self/exe target (length, depth, byte classes from the plan) delivered through the wrapped readlink, "
-              "optionally with an injected error return; the 'sweep' configuration enumerates every total length 2..PATH_MAX-1 "
-              "in one history, each also with an error return. Non-trivial: at least two calls and, when the plan attaches "
-              "faults, at least one delivered. Distinct: distinct run digests (FNV-1a over every returned string)."),
+              "optionally with an injected error return and with stale errno values (incl. EINTR) left by 'earlier calls'; one simulated installation "
+              "(all calls against one target) runs in one forked process, because a program's own path does not change while it runs: hidden per-process state "
+              "in the code under test is neither punished when harmless (a cached result) nor leaked into the next installation; a call that does not return within 20 s is a hang violation. "
+              "The 'sweep' configuration enumerates every total length 2..PATH_MAX-1 in one history (one process per length), each also with an error return. "
+              "Non-trivial: at least two calls and, when the plan attaches faults, at least one delivered. Distinct: distinct run digests (FNV-1a over every returned string)."),
         probes=["readlink_error", "len_ge_1024",
-                "len_eq_PATH_MAX_minus_1", "depth_1", "depth_2"],
+                "len_eq_PATH_MAX_minus_1", "depth_1", "depth_2", "stale_EINTR_in_errno_before_the_call"],
         components=dict(real=["include/xtl/xsystem.hpp (executable_path, prefix_path)", "include/xtl/xplatform.hpp (endianness)"],
                         stub=["readlink(2) for \"/proc/self/exe\" via -Wl,--wrap=readlink (kernel truncation semantics, no terminator, errno)",
                               "stack dirtied with seeded garbage before each call (plain build)"]),
